@@ -189,6 +189,22 @@ def run(ctx):
                         hist.append({'t': 'T1', 'kind': 'prog', 'op': f'g{j}', 'args': [rng.choice(blocks), rng.choice(blocks)], 'params': [], 'mode': 'num'})
                 rng.shuffle(hist)
                 add(u, {'graded': True, 'wrapper': rng.random() < 0.3}, progs, hist)
+        # mirrored storage patterns: both arguments hold the SAME blades, one permuted -- (K', K), then (K, K'), then (K', K)
+        # again: the operator functions a compiled body calls BY NAME must be the ones of exactly these ordered key tuples
+        X_, Y_ = ('arg', 1), ('arg', 2)
+        mtrees = [('gp', [X_, Y_], [], 'infix'), ('op', [X_, Y_], [], 'infix'), ('sw', [X_, Y_], [], 'infix'),
+                  ('add', [('grade', [('gp', [X_, Y_], [], 'infix')], [2], 'method'), ('gp', [('num', 2), X_], [], 'infix')], [], 'infix')]
+        for k in range(2 if q else 8):
+            K_ = sorted(P.random_key_tuple(rng, d, 3, 2))
+            Kp = list(K_)
+            while Kp == K_:
+                rng.shuffle(Kp)
+            progs = {f'm{j}': {'tree': t_, 'nargs': 2, 'symbolic': False, 'pyname': f'm{j}'} for j, t_ in enumerate(mtrees)}
+            hist = []
+            for a_, b_ in ((Kp, K_), (K_, Kp), (Kp, K_), (K_, K_), (Kp, Kp), (K_, Kp)):
+                for nm in progs:
+                    hist.append({'t': 'T1', 'kind': 'prog', 'op': nm, 'args': [tuple(a_), tuple(b_)], 'params': [], 'mode': 'num'})
+            add(u, {'wrapper': k % 2 == 0}, progs, hist)
         # deeper trees, 1..3 arguments
         for k in range(6 if q else 60):
             progs, hist = {}, []
